@@ -26,14 +26,15 @@ RCFLAGS="$OPT $SAN -DHAVE_CONFIG_H -I$CFGDIR -I$REPO -pthread -fno-common -w"
 SCFLAGS="$OPT $SAN -pthread -Wall -Wno-unused-function -I$SIM/simrt -I$SIM"
 
 KEY=$( { echo "$VARIANT $RCFLAGS $SCFLAGS $WRAP"; cat "$CFGDIR/config.h"; cd "$REPO" && cat $SRCS cmdline/*.h raid/*.h tommyds/*.h tommyds/*.c cmdline/murmur3.c cmdline/spooky2.c cmdline/metro.c 2>/dev/null; find "$SIM" "$VERIF/ref" -type f \( -name '*.c' -o -name '*.cpp' -o -name '*.h' -o -name '*.hpp' \) | sort | xargs cat; } | sha256sum | cut -c1-20)
-OUT=$VERIF/build/$VARIANT-$KEY
+BUILD=${SNAPSIM_BUILD_DIR:-$VERIF/build}
+OUT=$BUILD/$VARIANT-$KEY
 BIN=$OUT/snapsim
-mkdir -p "$VERIF/build"
-exec 9>"$VERIF/build/.lock-$VARIANT"
+mkdir -p "$BUILD"
+exec 9>"$BUILD/.lock-$VARIANT"
 flock 9
 if [ -x "$BIN" ]; then echo "$BIN"; exit 0; fi
 # keep the cache small: drop older builds of this variant
-for d in "$VERIF"/build/$VARIANT-*; do [ -d "$d" ] && [ "$d" != "$OUT" ] && rm -rf "$d"; done
+for d in "$BUILD"/$VARIANT-*; do [ -d "$d" ] && [ "$d" != "$OUT" ] && rm -rf "$d"; done
 mkdir -p "$OUT/obj"
 LOG=$OUT/build.log
 : > "$LOG"
